@@ -15,7 +15,8 @@ RULE = ("(a) every command class is constructed over comm 0..255, counts 1..125,
         "its request_bytes() is parsed by independent RTU / MBAP / AA55 decoders and compared with the arguments; icontract "
         "postconditions do the same on the real create_modbus_* builders; (b) a history of 200 000 consecutive Modbus/TCP "
         "request_bytes() calls (3 wraps of the transaction counter); (c) random operation sequences through the inverter API "
-        "on the wire against a decoding simulator, with drops so that retransmissions occur; distinct = distinct (framing, "
+        "on the wire against a decoding simulator, with drops so that retransmissions occur and TCP sessions closed by the peer between "
+        "requests; distinct = distinct (framing, "
         "command class, argument class) tuples + distinct transaction ids seen")
 ASSUMPTIONS = ["the decoders in refcodec follow the Modbus specification (big-endian fields, CRC lo-hi, MBAP length = bytes "
                "that follow) and the AA55 framing stated in the property"]
